@@ -13,8 +13,9 @@ THEOREMS = {'header_no_fault': 'full: every input byte string', 'header_consumes
             'tool_no_fault': 'full at model level: lha x/e/p/l/v on every archive, options, file-system state, answers - no step of the run faults',
             'extract_run_no_fault': 'full', 'print_run_no_fault': 'full', 'list_headers_no_fault': 'full',
             'history_no_fault': 'full: library on every history (also the next/check loop of lha t): next never faults, ownership, no decoder fault mark',
+            'test_run_no_fault': 'full: lha t on every archive (and the message-bearing x loop)', 'fault_flag_never_set': 'full',
             'visited_state_ok': 'full: what holds at every reader state the tool visits',
-            '(compiled binary, libc, option parsing, progress bar, lha t as a loop, dry run)': 'observed by ASan/UBSan, not proved'}
+            '(compiled binary, libc)': 'observed by ASan/UBSan, not proved'}
 TRUSTED = ["hand-written models of the header parser, input stream, basic reader, reader and MacBinary pass-through "
            "(LhasaV.Model.{Header,Stream,Reader}); every raw-data / lead-in access is a checked access, header ownership is a ghost ledger",
            "clang ASan + UBSan as the observer of memory errors in the compiled library and tool; file-system layer of the library "
